@@ -7,6 +7,7 @@
 set -u
 ID=$1; NAME=$2; WT=$3; shift 3
 CHECKS="$ID $*"
+REPO=${MUT_REPO:-/repo}   # a scratch worktree of /repo may be used instead (the checks then run with POLAR_REPO=$REPO)
 cd "$(dirname "$0")/.."
 D=seeded/$ID-$NAME
 mkdir -p "$D"
@@ -24,11 +25,11 @@ echo "demo: with change exit=$WITH, without exit=$WITHOUT"
 TESTS=$(cat /tmp/mut_tests.txt)
 echo "tests with change: $TESTS"
 
-if ! git -C /repo diff --quiet; then echo "/repo has uncommitted changes - abort"; exit 2; fi
-git -C /repo apply "$PWD/$D/patch.diff" || { echo "patch does not apply to /repo"; exit 2; }
+if ! git -C $REPO diff --quiet; then echo "$REPO has uncommitted changes - abort"; exit 2; fi
+git -C $REPO apply "$PWD/$D/patch.diff" || { echo "patch does not apply to $REPO"; exit 2; }
 RES=""
 for C in $CHECKS; do
-  OUT=$(VERIF_SEED=${VERIF_SEED:-1} ./check $C --tier quick 2>&1 | grep -v Warning | grep -v '\$')
+  OUT=$(POLAR_REPO=$REPO VERIF_SEED=${VERIF_SEED:-1} ./check $C --tier quick 2>&1 | grep -v Warning | grep -v '\$')
   RC=$?
   LINE=$(echo "$OUT" | grep -c "^VIOLATION")
   SUMMARY=$(echo "$OUT" | grep "seed=" | tail -1)
@@ -39,7 +40,7 @@ for C in $CHECKS; do
   R=$(echo "$OUT" | grep "^VIOLATION" | head -1 | sed 's/.*replay=//')
   if [ -n "$R" ] && [ -f "$R" ]; then cp "$R" "$D/detected-by-$C.json"; fi
 done
-git -C /repo checkout -- .
+git -C $REPO checkout -- .
 cat > "$D/meta.json" <<EOF
 {
  "property": "$ID",
